@@ -32,6 +32,16 @@ def check(prop, tier):
         totals["compared"] += res["compared"]
         for r in res["records"]:
             recs.append(r)
+    # the same programs under numba.njit (a sample: compilation dominates), compared with the interpreter
+    from . import numbax
+    nprog = 32 if tier == "quick" else 240
+    step = max(1, len(progs) // nprog)
+    nres = numbax.replay([], progs[common.seed() % step::step][:nprog], tier="quick", seed=common.seed(), only_programs=True)
+    for r in nres["records"]:
+        r["tag"] = "numba-program"
+        recs.append(r)
+    totals["calls"] += nres["calls"]
+    totals["compared"] += nres["compiled"]
     run = run_cases(t, groups=casegroups)
     crecs = flatten(run, lambda r: r["case"]["op"] in ops and r["kind"] in ("C01", "C02", "error"))
     # the one-call disagreements that are C01's recorded findings are not law violations
@@ -52,7 +62,7 @@ def check(prop, tier):
         "samples": [{"name": p["name"], "code": p["code"], "asserts": p["asserts"]} for p in progs[:: max(1, len(progs) // 2)][:2]],
         "law_programs": len(progs), "law_names": names,
         "law_assertions": pstats["asserts"], "law_assertions_decided_exactly_by_TLC": pstats["decided_asserts"],
-        "signature_variants_per_program": variants,
+        "signature_variants_per_program": variants, "programs_also_compiled_with_numba": nres["compiled"],
         "implementation_calls": totals["calls"] + ccalls,
         "comparisons": totals["compared"] + sum(m["compared"] for m in run["modes"].values()),
         "one_call_cases": ncases,
